@@ -52,6 +52,20 @@ fn main() {
                 o.flush().unwrap();
             }
         }
+        Some("default-of") => {
+            // native replay for the MIR kernel of C03: {"default": "l0", "mapping": {"l1": "l2"}, "start": "l1"}
+            use leptos_i18n_parser::parse_locales::locale::DefaultedLocales;
+            use leptos_i18n_parser::utils::Key;
+            let q: serde_json::Value = serde_json::from_str(&args[2]).expect("json");
+            let mut d = DefaultedLocales::new(Key::new(q["default"].as_str().unwrap()).unwrap());
+            for (k, v) in q["mapping"].as_object().unwrap() {
+                if let Some(v) = v.as_str() {
+                    d.push(Key::new(k).unwrap(), Key::new(v).unwrap());
+                }
+            }
+            let start = Key::new(q["start"].as_str().unwrap()).unwrap();
+            println!("{}", d.default_of(&start));
+        }
         Some("cldr") => {
             // oracle for "what CLDR assigns": {"locale","rule","n"} per line -> category (icu_plurals directly)
             use icu_plurals::{PluralRuleType, PluralRules};
